@@ -137,11 +137,19 @@ contract(
     raises={},
 )
 
+_UNDEF = lambda cls: Rec(cls, _module="liquid2.undefined", path=Str, hint=Opt(Str), token=Any_, obj=Any_)   # noqa: E731
+
 contract(
     "liquid2.builtin.expressions:_eq",
-    props=["C01"],
-    params={"left": Union(TrueT, FalseT, NoneT, Int, Str, Const(1), Const(0)), "right": Union(TrueT, FalseT, NoneT, Int, Str, Const(1), Const(0))},
+    props=["C01", "C16"],
+    params={"left": Union(TrueT, FalseT, NoneT, Int, Str, Const(1), Const(0), _UNDEF("Undefined"), _UNDEF("FalsyStrictUndefined")),
+            "right": Union(TrueT, FalseT, NoneT, Int, Str, Const(1), Const(0), _UNDEF("Undefined"), _UNDEF("FalsyStrictUndefined"))},
     post=[
+        # a missing variable compares like nil on either side, under every undefined policy that renders at all
+        "implies(isinstance(left, Undefined) and (right is None or isinstance(right, Undefined)), result == True)",
+        "implies(isinstance(right, Undefined) and left is None, result == True)",
+        "implies(isinstance(left, Undefined) and (isinstance(right, (int, str)) ), result == False)",
+        "implies(isinstance(right, Undefined) and (isinstance(left, (int, str)) ), result == False)",
         # booleans equal only booleans (Python's True == 1 does not leak into Liquid)
         "implies(isinstance(left, bool) != isinstance(right, bool), result == False)",
         "implies(isinstance(left, bool) and isinstance(right, bool), result == (left is right))",
